@@ -16,6 +16,7 @@ type SchedCfg struct {
 	LoopPct  int   // percentage (in 1/10 %) of loop iterations that are additional yield points
 	Explicit []int // run-length encoded decisions: task, count, task, count...
 	MaxSteps int
+	Steps    int // pct: expected number of scheduling steps (range for the change points)
 }
 
 // Sched is the cooperative scheduler. Tasks are real goroutines, but exactly one runs at a
@@ -207,8 +208,12 @@ func (s *Sched) pick(r []*Task) *Task {
 	case "pct":
 		if s.changeAt == nil {
 			s.changeAt = map[int]bool{}
+			n := s.cfg.Steps
+			if n <= 0 {
+				n = 400
+			}
 			for i := 0; i < s.cfg.Depth; i++ {
-				s.changeAt[1+s.rng.intn(400)] = true
+				s.changeAt[1+s.rng.intn(n)] = true
 			}
 		}
 		if s.changeAt[s.step] && s.last >= 0 && s.last < len(s.tasks) {
